@@ -3,7 +3,7 @@ import ast
 
 from ..model import AnalysisError, dotted, unparse
 from ..structfmt import linform
-from ..util import RAW, POS, FACTS, FACTS_I, U, enum_paths, walk_no_nested
+from ..util import resolved_text, RAW, POS, FACTS, FACTS_I, U, enum_paths, walk_no_nested
 from ..paths import call_attr, call_name
 
 MUX = 'scales/mux/sink.py'
@@ -229,25 +229,26 @@ def r4(ctx):
     if len(bh) != 1:
       ctx.ob('C11.R4', f, 'one header per enqueued frame', False, '%d headers built on an enqueue path' % len(bh), why)
       continue
-    tagname = U(bh[0][1].args[0])
-    defs = [(i, e.node) for i, e in enumerate(ev) if e.kind == 'stmt' and isinstance(e.node, (ast.Assign, ast.AugAssign)) and
-            tagname in [U(t) for t in (e.node.targets if isinstance(e.node, ast.Assign) else [e.node.target])]]
+    # values resolved through the assignments on the path (robust to renames / temporaries)
+    R = lambda i, node: resolved_text(ev, i, node)
+    hdr_tag = R(bh[0][0], bh[0][1].args[0])
+    leases = [i for i, e in enumerate(ev) if e.kind == 'call' and U(e.node.func).endswith('_tag_pool.get')]
     one_way = ('notmsg.is_one_way', False) in fs or ('msg.is_one_way', True) in fs
     if one_way:
-      ok = len(defs) == 1 and U(defs[0][1].value) == '0'
-      ctx.ob('C11.R4', f, 'one-way messages carry tag 0 and lease nothing', ok and not any(e.kind == 'call' and U(e.node.func).endswith('_tag_pool.get') for e in ev),
-             'one-way path defines the tag as %s' % [U(d[1]) for d in defs], why)
+      ctx.ob('C11.R4', f, 'one-way messages carry tag 0 and lease nothing', hdr_tag == '0' and not leases,
+             'one-way path writes header tag %s and leases %d tags' % (hdr_tag, len(leases)), why)
       continue
-    ok = len(defs) == 1 and isinstance(defs[0][1], ast.Assign) and U(defs[0][1].value).replace(' ', '') == 'self._tag_pool.get()'
     reg = [(i, e.node) for i, e in enumerate(ev) if e.kind == 'stmt' and isinstance(e.node, ast.Assign) and isinstance(e.node.targets[0], ast.Subscript)
            and U(e.node.targets[0].value) == 'self._tag_map']
-    ok = ok and len(reg) == 1 and U(reg[0][1].targets[0].slice) == tagname and defs[0][0] < reg[0][0] < put[0] and reg[0][0] < bh[0][0] + 10 ** 6
+    ok = len(leases) == 1 and hdr_tag == 'self._tag_pool.get()' and len(reg) == 1
     if ok:
+      key = R(reg[0][0], reg[0][1].targets[0].slice)
+      ok = key == 'self._tag_pool.get()' and leases[0] < reg[0][0] < put[0]
       v = reg[0][1].value
-      ok = isinstance(v, ast.Tuple) and len(v.elts) == 3 and U(v.elts[0]) == f.params[1]
+      ok = ok and isinstance(v, ast.Tuple) and len(v.elts) == 3 and R(reg[0][0], v.elts[0]) == f.params[1]
     ctx.ob('C11.R4', f, 'leased tag is registered unmodified, written in the header, and registered before enqueue', ok,
-           'tag defs %s, registrations %s' % ([U(d[1]) for d in defs], [U(r[1]) for r in reg]), why)
-    prop = [e.node for e in ev if e.kind == 'stmt' and isinstance(e.node, ast.Assign) and 'Tag.KEY' in U(e.node.targets[0])]
-    ctx.ob('C11.R4', f, 'the tag is recorded on the message properties', bool(prop) and U(prop[0].value) == tagname, 'Tag.KEY property is %s' % [U(p) for p in prop],
-           'the timeout handler identifies the request by this property')
+           'header tag %s, leases %d, registrations %s' % (hdr_tag, len(leases), [U(r[1]) for r in reg]), why)
+    prop = [(i, e.node) for i, e in enumerate(ev) if e.kind == 'stmt' and isinstance(e.node, ast.Assign) and 'Tag.KEY' in U(e.node.targets[0])]
+    ctx.ob('C11.R4', f, 'the tag is recorded on the message properties', bool(prop) and R(prop[0][0], prop[0][1].value) == 'self._tag_pool.get()',
+           'Tag.KEY property is %s' % [U(p[1]) for p in prop], 'the timeout handler identifies the request by this property')
   ctx.floor('C11.R4', 'enqueue paths', n, 2)
